@@ -426,7 +426,8 @@ def r3_parse_sites(chk, prog):
         f = ctx.fn
         cfg = ctx.cfg
         nverify += len(ctx.calls(ROOT_VERIFY, DELEG_VERIFY, wrappers=True))
-        parses = [(bb, t) for bb, t in ctx.calls(*SER_PARSE) if any("Signed<" in g for g in t.generic_args)]
+        parses = [(bb, t) for bb, t in ctx.calls(*SER_PARSE)
+                  if any("Signed<" in g for g in t.generic_args) or "Signed<" in ctx.body.locals[t.dest.local]["ty"]]
         for pbb, pt in parses:
             me = Origin("call", (pbb, strip_generics(pt.resolved or pt.callee)), (), pt)
             is_me = lambda o, me=me: base(o) == me
@@ -548,7 +549,7 @@ def _is_initial(ctx, operand, me):
 
 def _doc_label(ctx, pbb):
     t = ctx.body.blocks[pbb].term
-    ga = next((g for g in t.generic_args if "Signed<" in g), "?")
+    ga = next((g for g in t.generic_args if "Signed<" in g), None) or ctx.body.locals[t.dest.local]["ty"]
     name = ga.split("Signed<")[-1].rstrip(">").split("::")[-1]
     idx = sorted(b for b, t2 in ctx.calls(*SER_PARSE)).index(pbb)
     return "%s#%d" % (name, idx)
